@@ -164,40 +164,125 @@ impl AArch64Register {
     /// ARCHITECTURAL part - an integer register Wn / Xn / WSP / SP / WZR / XZR is 32 resp. 64 bits wide and its full register
     /// is the 64-bit view of the SAME register number, held in the scalar called x<n> / sp (xzr for the zero register);
     /// a non-integer register never aliases an integer register
-    pub open spec fn rec_ok(&self) -> bool {
-        let t = table_spec();
-        &&& lookup(t, self.bad64_full_reg) is Some
-        &&& ({ let f = self.full_rec();
+    pub open spec fn rec_ok(&self) -> bool { rec_ok_in(table_spec(), *self) }
+}
+
+/// (the table is a parameter so that the evaluator builds the literal once)
+pub open spec fn rec_ok_in(t: Seq<AArch64Register>, x: AArch64Register) -> bool {
+    match lookup(t, x.bad64_full_reg) {
+        Some(j) => ({
+            let f = t[j];
             &&& f.bad64_reg == f.bad64_full_reg
-            &&& f.bad64_reg == self.bad64_full_reg
-            &&& 1 <= self.bits && self.bits <= f.bits && f.bits <= 128
-            &&& (self.bad64_reg == self.bad64_full_reg ==> (self.name@ == f.name@ && self.bits == f.bits))
-            &&& (match gp_class(self.bad64_reg) {
-                    Some((is64, n)) => self.bits == (if is64 { 64usize } else { 32usize }) && gp_class(f.bad64_reg) == Some((true, n))
+            &&& f.bad64_reg == x.bad64_full_reg
+            &&& 1 <= x.bits && x.bits <= f.bits && f.bits <= 128
+            &&& (x.bad64_reg == x.bad64_full_reg ==> (x.name@ == f.name@ && x.bits == f.bits))
+            &&& (match gp_class(x.bad64_reg) {
+                    Some((is64, n)) => x.bits == (if is64 { 64usize } else { 32usize }) && gp_class(f.bad64_reg) == Some((true, n))
                         && f.bits == 64 && f.name@ == xname(n),
                     None => gp_class(f.bad64_reg) is None,
-                }) })
+                })
+        }),
+        None => false,
     }
 }
 
-pub open spec fn recs_ok_from(t: Seq<AArch64Register>, k: int) -> bool
-    decreases t.len() - k,
-{
-    if k < 0 || k >= t.len() { true } else { t[k].rec_ok() && recs_ok_from(t, k + 1) }
+/// position of a register id in bad64's declaration order (a PROOF DEVICE only: the real table lists the registers in
+/// this order, which lets the evaluator find the full register of a record by position; checked on every run)
+pub open spec fn reg_ord(r: Reg) -> int {
+    match r {
+        Reg::W0 => 0int, Reg::W1 => 1int, Reg::W2 => 2int, Reg::W3 => 3int, Reg::W4 => 4int, Reg::W5 => 5int, Reg::W6 => 6int, Reg::W7 => 7int,
+        Reg::W8 => 8int, Reg::W9 => 9int, Reg::W10 => 10int, Reg::W11 => 11int, Reg::W12 => 12int, Reg::W13 => 13int, Reg::W14 => 14int, Reg::W15 => 15int,
+        Reg::W16 => 16int, Reg::W17 => 17int, Reg::W18 => 18int, Reg::W19 => 19int, Reg::W20 => 20int, Reg::W21 => 21int, Reg::W22 => 22int, Reg::W23 => 23int,
+        Reg::W24 => 24int, Reg::W25 => 25int, Reg::W26 => 26int, Reg::W27 => 27int, Reg::W28 => 28int, Reg::W29 => 29int, Reg::W30 => 30int, Reg::WZR => 31int,
+        Reg::WSP => 32int, Reg::X0 => 33int, Reg::X1 => 34int, Reg::X2 => 35int, Reg::X3 => 36int, Reg::X4 => 37int, Reg::X5 => 38int, Reg::X6 => 39int,
+        Reg::X7 => 40int, Reg::X8 => 41int, Reg::X9 => 42int, Reg::X10 => 43int, Reg::X11 => 44int, Reg::X12 => 45int, Reg::X13 => 46int, Reg::X14 => 47int,
+        Reg::X15 => 48int, Reg::X16 => 49int, Reg::X17 => 50int, Reg::X18 => 51int, Reg::X19 => 52int, Reg::X20 => 53int, Reg::X21 => 54int, Reg::X22 => 55int,
+        Reg::X23 => 56int, Reg::X24 => 57int, Reg::X25 => 58int, Reg::X26 => 59int, Reg::X27 => 60int, Reg::X28 => 61int, Reg::X29 => 62int, Reg::X30 => 63int,
+        Reg::XZR => 64int, Reg::SP => 65int, Reg::V0 => 66int, Reg::V1 => 67int, Reg::V2 => 68int, Reg::V3 => 69int, Reg::V4 => 70int, Reg::V5 => 71int,
+        Reg::V6 => 72int, Reg::V7 => 73int, Reg::V8 => 74int, Reg::V9 => 75int, Reg::V10 => 76int, Reg::V11 => 77int, Reg::V12 => 78int, Reg::V13 => 79int,
+        Reg::V14 => 80int, Reg::V15 => 81int, Reg::V16 => 82int, Reg::V17 => 83int, Reg::V18 => 84int, Reg::V19 => 85int, Reg::V20 => 86int, Reg::V21 => 87int,
+        Reg::V22 => 88int, Reg::V23 => 89int, Reg::V24 => 90int, Reg::V25 => 91int, Reg::V26 => 92int, Reg::V27 => 93int, Reg::V28 => 94int, Reg::V29 => 95int,
+        Reg::V30 => 96int, Reg::VZR => 97int, Reg::V31 => 98int, Reg::B0 => 99int, Reg::B1 => 100int, Reg::B2 => 101int, Reg::B3 => 102int, Reg::B4 => 103int,
+        Reg::B5 => 104int, Reg::B6 => 105int, Reg::B7 => 106int, Reg::B8 => 107int, Reg::B9 => 108int, Reg::B10 => 109int, Reg::B11 => 110int, Reg::B12 => 111int,
+        Reg::B13 => 112int, Reg::B14 => 113int, Reg::B15 => 114int, Reg::B16 => 115int, Reg::B17 => 116int, Reg::B18 => 117int, Reg::B19 => 118int, Reg::B20 => 119int,
+        Reg::B21 => 120int, Reg::B22 => 121int, Reg::B23 => 122int, Reg::B24 => 123int, Reg::B25 => 124int, Reg::B26 => 125int, Reg::B27 => 126int, Reg::B28 => 127int,
+        Reg::B29 => 128int, Reg::B30 => 129int, Reg::BZR => 130int, Reg::B31 => 131int, Reg::H0 => 132int, Reg::H1 => 133int, Reg::H2 => 134int, Reg::H3 => 135int,
+        Reg::H4 => 136int, Reg::H5 => 137int, Reg::H6 => 138int, Reg::H7 => 139int, Reg::H8 => 140int, Reg::H9 => 141int, Reg::H10 => 142int, Reg::H11 => 143int,
+        Reg::H12 => 144int, Reg::H13 => 145int, Reg::H14 => 146int, Reg::H15 => 147int, Reg::H16 => 148int, Reg::H17 => 149int, Reg::H18 => 150int, Reg::H19 => 151int,
+        Reg::H20 => 152int, Reg::H21 => 153int, Reg::H22 => 154int, Reg::H23 => 155int, Reg::H24 => 156int, Reg::H25 => 157int, Reg::H26 => 158int, Reg::H27 => 159int,
+        Reg::H28 => 160int, Reg::H29 => 161int, Reg::H30 => 162int, Reg::HZR => 163int, Reg::H31 => 164int, Reg::S0 => 165int, Reg::S1 => 166int, Reg::S2 => 167int,
+        Reg::S3 => 168int, Reg::S4 => 169int, Reg::S5 => 170int, Reg::S6 => 171int, Reg::S7 => 172int, Reg::S8 => 173int, Reg::S9 => 174int, Reg::S10 => 175int,
+        Reg::S11 => 176int, Reg::S12 => 177int, Reg::S13 => 178int, Reg::S14 => 179int, Reg::S15 => 180int, Reg::S16 => 181int, Reg::S17 => 182int, Reg::S18 => 183int,
+        Reg::S19 => 184int, Reg::S20 => 185int, Reg::S21 => 186int, Reg::S22 => 187int, Reg::S23 => 188int, Reg::S24 => 189int, Reg::S25 => 190int, Reg::S26 => 191int,
+        Reg::S27 => 192int, Reg::S28 => 193int, Reg::S29 => 194int, Reg::S30 => 195int, Reg::SZR => 196int, Reg::S31 => 197int, Reg::D0 => 198int, Reg::D1 => 199int,
+        Reg::D2 => 200int, Reg::D3 => 201int, Reg::D4 => 202int, Reg::D5 => 203int, Reg::D6 => 204int, Reg::D7 => 205int, Reg::D8 => 206int, Reg::D9 => 207int,
+        Reg::D10 => 208int, Reg::D11 => 209int, Reg::D12 => 210int, Reg::D13 => 211int, Reg::D14 => 212int, Reg::D15 => 213int, Reg::D16 => 214int, Reg::D17 => 215int,
+        Reg::D18 => 216int, Reg::D19 => 217int, Reg::D20 => 218int, Reg::D21 => 219int, Reg::D22 => 220int, Reg::D23 => 221int, Reg::D24 => 222int, Reg::D25 => 223int,
+        Reg::D26 => 224int, Reg::D27 => 225int, Reg::D28 => 226int, Reg::D29 => 227int, Reg::D30 => 228int, Reg::DZR => 229int, Reg::D31 => 230int, Reg::Q0 => 231int,
+        Reg::Q1 => 232int, Reg::Q2 => 233int, Reg::Q3 => 234int, Reg::Q4 => 235int, Reg::Q5 => 236int, Reg::Q6 => 237int, Reg::Q7 => 238int, Reg::Q8 => 239int,
+        Reg::Q9 => 240int, Reg::Q10 => 241int, Reg::Q11 => 242int, Reg::Q12 => 243int, Reg::Q13 => 244int, Reg::Q14 => 245int, Reg::Q15 => 246int, Reg::Q16 => 247int,
+        Reg::Q17 => 248int, Reg::Q18 => 249int, Reg::Q19 => 250int, Reg::Q20 => 251int, Reg::Q21 => 252int, Reg::Q22 => 253int, Reg::Q23 => 254int, Reg::Q24 => 255int,
+        Reg::Q25 => 256int, Reg::Q26 => 257int, Reg::Q27 => 258int, Reg::Q28 => 259int, Reg::Q29 => 260int, Reg::Q30 => 261int, Reg::QZR => 262int, Reg::Q31 => 263int,
+        Reg::Z0 => 264int, Reg::Z1 => 265int, Reg::Z2 => 266int, Reg::Z3 => 267int, Reg::Z4 => 268int, Reg::Z5 => 269int, Reg::Z6 => 270int, Reg::Z7 => 271int,
+        Reg::Z8 => 272int, Reg::Z9 => 273int, Reg::Z10 => 274int, Reg::Z11 => 275int, Reg::Z12 => 276int, Reg::Z13 => 277int, Reg::Z14 => 278int, Reg::Z15 => 279int,
+        Reg::Z16 => 280int, Reg::Z17 => 281int, Reg::Z18 => 282int, Reg::Z19 => 283int, Reg::Z20 => 284int, Reg::Z21 => 285int, Reg::Z22 => 286int, Reg::Z23 => 287int,
+        Reg::Z24 => 288int, Reg::Z25 => 289int, Reg::Z26 => 290int, Reg::Z27 => 291int, Reg::Z28 => 292int, Reg::Z29 => 293int, Reg::Z30 => 294int, Reg::Z31 => 295int,
+        Reg::P0 => 296int, Reg::P1 => 297int, Reg::P2 => 298int, Reg::P3 => 299int, Reg::P4 => 300int, Reg::P5 => 301int, Reg::P6 => 302int, Reg::P7 => 303int,
+        Reg::P8 => 304int, Reg::P9 => 305int, Reg::P10 => 306int, Reg::P11 => 307int, Reg::P12 => 308int, Reg::P13 => 309int, Reg::P14 => 310int, Reg::P15 => 311int,
+        Reg::P16 => 312int, Reg::P17 => 313int, Reg::P18 => 314int, Reg::P19 => 315int, Reg::P20 => 316int, Reg::P21 => 317int, Reg::P22 => 318int, Reg::P23 => 319int,
+        Reg::P24 => 320int, Reg::P25 => 321int, Reg::P26 => 322int, Reg::P27 => 323int, Reg::P28 => 324int, Reg::P29 => 325int, Reg::P30 => 326int, Reg::P31 => 327int,
+    }
 }
 
-pub proof fn lemma_recs_ok(t: Seq<AArch64Register>, k: int, i: int)
-    requires recs_ok_from(t, k), 0 <= k <= i < t.len(),
-    ensures t[i].rec_ok(),
+/// rec_ok_in with the position of the full register given instead of searched for
+pub open spec fn rec_ok_at(t: Seq<AArch64Register>, x: AArch64Register, j: int) -> bool {
+    &&& 0 <= j < t.len()
+    &&& ({
+        let f = t[j];
+        &&& f.bad64_reg == f.bad64_full_reg
+        &&& f.bad64_reg == x.bad64_full_reg
+        &&& 1 <= x.bits && x.bits <= f.bits && f.bits <= 128
+        &&& (x.bad64_reg == x.bad64_full_reg ==> (x.name@ == f.name@ && x.bits == f.bits))
+        &&& (match gp_class(x.bad64_reg) {
+                Some((is64, n)) => x.bits == (if is64 { 64usize } else { 32usize }) && gp_class(f.bad64_reg) == Some((true, n))
+                    && f.bits == 64 && f.name@ == xname(n),
+                None => gp_class(f.bad64_reg) is None,
+            })
+    })
+}
+
+/// linear-time form of "every record satisfies the invariant": record k holds the register with ordinal k and its
+/// full register (found by ordinal) has the required properties
+pub open spec fn ord_ok_from(t: Seq<AArch64Register>, k: int) -> bool
+    decreases t.len() - k,
+{
+    if k < 0 || k >= t.len() { true } else { reg_ord(t[k].bad64_reg) == k && rec_ok_at(t, t[k], reg_ord(t[k].bad64_full_reg)) && ord_ok_from(t, k + 1) }
+}
+
+pub proof fn lemma_ord_ok(t: Seq<AArch64Register>, k: int, i: int)
+    requires ord_ok_from(t, k), 0 <= k <= i < t.len(),
+    ensures reg_ord(t[i].bad64_reg) == i, rec_ok_at(t, t[i], reg_ord(t[i].bad64_full_reg)),
     decreases i - k,
 {
-    if k < i { lemma_recs_ok(t, k + 1, i); }
+    if k < i { lemma_ord_ok(t, k + 1, i); }
+}
+
+/// in a table whose record k holds the register with ordinal k, the first record with id `id` is record reg_ord(id)
+pub proof fn lemma_lookup_by_ord(t: Seq<AArch64Register>, id: Reg, k: int)
+    requires ord_ok_from(t, 0), 0 <= k <= reg_ord(id), reg_ord(id) < t.len(), t[reg_ord(id)].bad64_reg == id,
+    ensures lookup_from(t, id, k) == Some(reg_ord(id)),
+    decreases reg_ord(id) - k,
+{
+    if k < reg_ord(id) {
+        lemma_ord_ok(t, 0, k);
+        lemma_lookup_by_ord(t, id, k + 1);
+    }
 }
 
 pub proof fn lemma_table_ok()
-    ensures recs_ok_from(table_spec(), 0),
+    ensures ord_ok_from(table_spec(), 0),
 {
-    assert(recs_ok_from(table_spec(), 0)) by (compute);
+    assert(ord_ok_from(table_spec(), 0)) by (compute);
 }
 
 /// every record of the real table satisfies the register record invariant (checked by evaluation of the extracted table)
@@ -205,8 +290,11 @@ pub proof fn lemma_table_rec_ok(k: int)
     requires 0 <= k < table_spec().len(),
     ensures table_spec()[k].rec_ok(),
 {
+    let t = table_spec();
     lemma_table_ok();
-    lemma_recs_ok(table_spec(), 0, k);
+    lemma_ord_ok(t, 0, k);
+    let j = reg_ord(t[k].bad64_full_reg);
+    lemma_lookup_by_ord(t, t[k].bad64_full_reg, 0);
 }
 
 pub proof fn lemma_lookup_found(t: Seq<AArch64Register>, id: Reg, k: int)
@@ -232,3 +320,194 @@ pub proof fn lemma_lookup_found(t: Seq<AArch64Register>, id: Reg, k: int)
 //@ before 0 `return Ok(register)`
     proof { lemma_table_rec_ok(it.index@ as int); }
 //@ end
+
+// derive(Debug) of UnsupportedError re-supplied (trait bound of Result::expect / unwrap only): opaque, no contract
+impl std::fmt::Debug for UnsupportedError {
+    #[verifier::external_body]
+    fn fmt(&self, f: &mut std::fmt::Formatter<'_>) -> std::fmt::Result { unimplemented!() }
+}
+
+// ---- meaning of a register read / write ----------------------------------------------------------------------------
+
+/// the IL scalar that holds the full register `f`
+pub open spec fn reg_scalar(f: AArch64Register) -> Scalar { named_scalar(f.name@, f.bits) }
+
+/// Arm ARM X[n] / W[n] / SP read: the zero register reads as zero in every state; any other register is the low
+/// `bits` bits of the scalar of its full register (Wn = Xn<31:0>, WSP = SP<31:0>)
+pub open spec fn reg_read(x: AArch64Register, env: Env) -> EvalR {
+    if is_zero_reg(x.bad64_reg) { EvalR::Val(x.bits as nat, 0) } else {
+        let f = x.full_rec();
+        match env(reg_scalar(f)) {
+            Some((w, full)) => EvalR::Val(x.bits as nat, full % pow2(x.bits as nat)),
+            None => EvalR::ErrScalar(reg_scalar(f).name@),
+        }
+    }
+}
+
+/// `src` computes the new content of the full register: the written value, zero-extended (same number)
+pub open spec fn write_ok(x: AArch64Register, value: Expression, src: Expression, env: Env) -> bool {
+    eval_spec(value, env) matches EvalR::Val(w, v) ==> eval_spec(src, env) == EvalR::Val(x.full_rec().bits as nat, v)
+}
+
+/// the effect of `x.set(block, value)`: exactly one instruction is appended, `full(x) := src`
+pub open spec fn set_effect(x: AArch64Register, value: Expression, b0: Block, b1: Block) -> bool {
+    let f = x.full_rec();
+    &&& b1.instructions@.len() == b0.instructions@.len() + 1
+    &&& b1.instructions@.last().operation matches Operation::Assign { dst, src }
+    &&& b1.pushed_op(b0, Operation::Assign { dst, src })
+    &&& dst == reg_scalar(f)
+    &&& expr_wf(src) && expr_bits(src) == f.bits
+    &&& (expr_bits(value) == f.bits ==> src == value)
+    &&& forall|env: Env| env_sorted(env) ==> #[trigger] write_ok(x, value, src, env)
+}
+
+/// the expression assigned by the last instruction of the block
+pub open spec fn last_src(b: Block) -> Expression {
+    match b.instructions@.last().operation { Operation::Assign { dst, src } => src, _ => arbitrary() }
+}
+
+/// the full register of a record satisfying the invariant satisfies it too, and is its own full register
+pub proof fn lemma_full_rec_ok(x: AArch64Register)
+    requires x.rec_ok(),
+    ensures x.full_rec().rec_ok(), x.full_rec().full_rec() == x.full_rec(), x.full_rec().bad64_reg == x.bad64_full_reg,
+            x.full_rec().bad64_reg == x.full_rec().bad64_full_reg, 1 <= x.bits <= x.full_rec().bits <= 128,
+            is_zero_reg(x.bad64_reg) <==> is_zero_reg(x.full_rec().bad64_reg),
+            is_zero_reg(x.bad64_reg) ==> x.full_rec().name@ == "xzr"@,
+            x.bad64_reg == x.bad64_full_reg ==> (x.name@ == x.full_rec().name@ && x.bits == x.full_rec().bits),
+{
+    let t = table_spec();
+    lemma_lookup_found(t, x.bad64_full_reg, 0);
+    let j = lookup(t, x.bad64_full_reg).unwrap();
+    lemma_table_rec_ok(j);
+    lemma_lookup_found(t, t[j].bad64_full_reg, 0);
+}
+
+/// ARCHITECTURAL reading of the invariant for the integer registers: Wn / Xn live in the 64-bit scalar x<n>, WSP / SP in sp
+pub proof fn lemma_gp_scalar(x: AArch64Register)
+    requires x.rec_ok(), gp_class(x.bad64_reg) is Some,
+    ensures
+        reg_scalar(x.full_rec()) == named_scalar(xname(gp_class(x.bad64_reg).unwrap().1), 64),
+        x.bits == (if gp_class(x.bad64_reg).unwrap().0 { 64usize } else { 32usize }),
+{
+}
+
+pub proof fn lemma_read_full(f: AArch64Register, env: Env)
+    requires f.rec_ok(), f.bad64_reg == f.bad64_full_reg, !is_zero_reg(f.bad64_reg), env_sorted(env),
+    ensures eval_spec(Expression::Scalar(named_scalar(f.name@, f.bits)), env) == reg_read(f, env),
+{
+    lemma_full_rec_ok(f);
+    let s = named_scalar(f.name@, f.bits);
+    let ff = f.full_rec();
+    assert(reg_scalar(ff) == s);
+    if let Some((w, full)) = env(s) {
+        lemma_small_mod(full, pow2(f.bits as nat));
+    }
+}
+
+pub proof fn lemma_read_low(x: AArch64Register, ef: Expression, env: Env)
+    requires
+        x.rec_ok(), x.bad64_reg != x.bad64_full_reg, !is_zero_reg(x.bad64_reg), env_sorted(env),
+        expr_wf(ef), expr_bits(ef) == x.full_rec().bits, eval_spec(ef, env) == reg_read(x.full_rec(), env),
+    ensures
+        x.bits == x.full_rec().bits ==> eval_spec(ef, env) == reg_read(x, env),
+        x.bits < x.full_rec().bits ==> eval_spec(Expression::Trun(x.bits, Box::new(ef)), env) == reg_read(x, env),
+{
+    let f = x.full_rec();
+    lemma_full_rec_ok(x);
+    reveal(bv_trun);
+    if let Some((w, full)) = env(reg_scalar(f)) {
+        lemma_small_mod(full, pow2(f.bits as nat));
+    }
+}
+
+impl AArch64Register {
+
+//@ fn impl AArch64Register :: fn bits
+//@ spec
+    ensures /*@field*/ r == self.bits,
+//@ end
+
+//@ fn impl AArch64Register :: fn is_full
+//@ spec
+    ensures /*@spec*/ r == (self.bad64_reg == self.bad64_full_reg),
+//@ end
+
+//@ fn impl AArch64Register :: fn get_full
+//@ spec
+    requires self.rec_ok(),
+    ensures
+        /*@full*/ *r == self.full_rec() && r.rec_ok() && r.full_rec() == *r && r.bad64_reg == r.bad64_full_reg && r.bad64_reg == self.bad64_full_reg,
+//@ enter
+    proof { lemma_full_rec_ok(*self); lemma_lookup_found(table_spec(), self.bad64_full_reg, 0); }
+//@ end
+
+//@ fn impl AArch64Register :: fn get
+//@ spec
+    requires self.rec_ok(),
+    ensures
+        /*@ok*/ expr_wf(r) && expr_bits(r) == self.bits,
+        /*@zero_reads_zero*/ is_zero_reg(self.bad64_reg) ==> (forall|env: Env| #[trigger] eval_spec(r, env) == EvalR::Val(self.bits as nat, 0)),
+        /*@get_value*/ forall|env: Env| env_sorted(env) ==> #[trigger] eval_spec(r, env) == reg_read(*self, env),
+    decreases (if self.bad64_reg == self.bad64_full_reg { 0nat } else { 1nat }),
+//@ enter
+    proof {
+        broadcast use crate::strmap::axiom_into_string_str;
+        lemma_full_rec_ok(*self);
+        let f = self.full_rec();
+        lemma2_to64();
+        lemma_pow2_pos(self.bits as nat);
+        lemma_small_mod(0, pow2(self.bits as nat));
+        if self.bad64_reg == self.bad64_full_reg && !is_zero_reg(self.bad64_reg) {
+            assert forall|env: Env| env_sorted(env) implies #[trigger] eval_spec(Expression::Scalar(named_scalar(self.name@, self.bits)), env) == reg_read(*self, env) by {
+                lemma_read_full(*self, env);
+            }
+        }
+        if self.bad64_reg != self.bad64_full_reg && !is_zero_reg(self.bad64_reg) {
+            assert forall|ef: Expression, env: Env| (env_sorted(env) && expr_wf(ef) && expr_bits(ef) == f.bits && eval_spec(ef, env) == reg_read(f, env))
+                implies (self.bits == f.bits ==> #[trigger] eval_spec(ef, env) == reg_read(*self, env))
+                    && (self.bits < f.bits ==> #[trigger] eval_spec(Expression::Trun(self.bits, Box::new(ef)), env) == reg_read(*self, env)) by {
+                lemma_read_low(*self, ef, env);
+            }
+        }
+    }
+//@ end
+
+//@ fn impl AArch64Register :: fn set
+//@ spec
+    requires
+        self.rec_ok(), expr_wf(value),
+        // WIDTH PRECONDITION (no panic): the value is not wider than the full register
+        expr_bits(value) <= self.full_rec().bits,
+        old(block).block_wf(), old(block).next_instruction_index < usize::MAX,
+    ensures
+        /*@wf*/ final(block).block_wf(),
+        /*@effect*/ set_effect(*self, value, *old(block), *final(block)),
+    decreases (if self.bad64_reg == self.bad64_full_reg { 0nat } else { 1nat }),
+//@ enter
+    let ghost value0 = value;
+    proof {
+        broadcast use crate::strmap::axiom_into_string_str;
+        lemma_full_rec_ok(*self);
+        lemma_expr_wf_bits(value);
+        let f = self.full_rec();
+        lemma2_to64();
+        if self.bad64_reg == self.bad64_full_reg {
+            assert forall|env: Env| (env_sorted(env) && expr_bits(value) == self.bits) implies #[trigger] write_ok(*self, value, value, env) by {
+                lemma_eval_wf_val(value, env);
+            }
+            assert forall|env: Env| (env_sorted(env) && expr_bits(value) < self.bits) implies #[trigger] write_ok(*self, value, Expression::Zext(self.bits, Box::new(value)), env) by {
+                lemma_eval_wf_val(value, env);
+                reveal(bv_zext);
+            }
+        }
+    }
+//@ after 0 `full_reg.set(block, value);`
+    proof {
+        let src = last_src(*block);
+        assert forall|env: Env| env_sorted(env) implies #[trigger] write_ok(*self, value0, src, env) by {
+            assert(write_ok(*full_reg, value0, src, env));
+        }
+    }
+//@ end
+
+} // impl AArch64Register
